@@ -12,7 +12,7 @@ import (
 func init() {
 	register(&PropSpec{
 		ID:    "C07",
-		Progs: []string{"agent"},
+		Progs: []string{"agent", "mod"},
 		Explanation: "Decides the ways this code base can kill or wedge the whole agent from per-request code, for every fault sequence: " +
 			"(F) no process-terminating call (log.Fatal*, log.Panic*, os.Exit, panic, runtime.Goexit) in module source is reachable (VTA call graph of the agent binary, through stdlib callbacks) from the per-request worker; " +
 			"(L) agent-side shared state is only accessed under its mutex (lockset); (S) inventory of shared mutable maps / non-goroutine-safe objects: each is guarded, per-request, or read-only after construction; " +
@@ -76,6 +76,13 @@ func exitName(i ssa.Instruction) string {
 
 func runC07(c *Ctx) {
 	p := c.Progs["agent"]
+	c.Rule("C07.Y", "compatibility with the party that is not changed with this code: session cookies of the previous build still get a jar; request IDs do not repeat across proxy restarts (= C01.G)", 3)
+	if pm := c.Progs["mod"]; pm != nil {
+		ruleEverySessionIDGetsAJar(c, pm, "C07.Y")
+		ruleNewIDShape(c, pm, "C07.Y")
+	} else {
+		c.Unk("C07.Y", "program:mod", p, 0, "whole-module program not loaded")
+	}
 
 	// ---- C07.F
 	c.Rule("C07.F", "no process-terminating call in module source is reachable from the per-request worker (VTA reachability); no I/O-fault signal is treated as a shutdown request", 3)
